@@ -420,6 +420,12 @@ fn text_parsers() -> Vec<TextParser> {
 
 // ------------------------------------------------------------------------------------------------ judging
 
+/// the type a parser belongs to ("FixedTransaction::new(..)" -> "FixedTransaction")
+fn family(parser: &str) -> &str {
+    let end = parser.find("::").or_else(|| parser.find('(')).unwrap_or(parser.len());
+    &parser[..end]
+}
+
 /// signature of a panic: the library site and the normalised message identify the defect, whatever
 /// parser reached it; allocation-size panics are raised below many call sites and are keyed by the
 /// class of the declared length instead
@@ -543,7 +549,7 @@ fn judge_bytes(ctx: &mut Ctx, parser: &str, input: &[u8], call: &dyn Fn(&[u8]) -
                             cbor::CborErr::UnexpectedBreak(_) => "unexpected-break",
                             _ => "other",
                         };
-                        ctx.violation(&format!("{}/re-encoding-not-well-formed-cbor/{}", parser, cls), json!({"input": hx(input), "reencoded": hx(&b), "origin": origin}));
+                        ctx.violation(&format!("{}/re-encoding-not-well-formed-cbor", family(parser)), json!({"parser": parser, "class": cls, "input": hx(input), "reencoded": hx(&b), "origin": origin}));
                     }
                 }
             }
@@ -724,7 +730,7 @@ fn fork_judge(ctx: &mut Ctx, parser: &str, input: &[u8], call: &dyn Fn(&[u8]) ->
             ctx.bucket(&format!("{}.accepted", origin));
             ctx.nontrivial(vkit::rng::fnv64(&v));
         }
-        ForkOutcome::Exit(3) => ctx.violation(&format!("{}/re-encoding-not-well-formed-cbor/in-child", parser), json!({"input": hx(&input[..input.len().min(300)]), "origin": origin})),
+        ForkOutcome::Exit(3) => ctx.violation(&format!("{}/re-encoding-not-well-formed-cbor", family(parser)), json!({"parser": parser, "input": hx(&input[..input.len().min(300)]), "origin": origin})),
         ForkOutcome::Exit(64) => {
             // panic in the child: repeat in-process to get the location
             ctx.nontrivial(vkit::rng::fnv64(&v));
@@ -1036,7 +1042,7 @@ fn judge_text(ctx: &mut Ctx, parser: &str, input: &str, call: &dyn Fn(&str) -> R
             ctx.nontrivial(vkit::rng::fnv64(&v));
             if let Some(b) = reser {
                 if cbor::parse(&b).is_err() {
-                    ctx.violation(&format!("{}/re-encoding-not-well-formed-cbor/text", parser), json!({"input": input, "reencoded": hx(&b)}));
+                    ctx.violation(&format!("{}/re-encoding-not-well-formed-cbor", family(parser)), json!({"parser": parser, "input": input, "reencoded": hx(&b)}));
                 } else {
                     ctx.bucket("reencode.wellformed");
                 }
